@@ -18,7 +18,7 @@ Ltac zfin := repeat match goal with
    tj3GetICCProfile() called or not *)
 Theorem xform_icc_sufficient_all : xform_icc_sufficient_full.
 Proof.
-  intros [s cn src inst got] (Hs & Hsrc & Hinst).
+  intros [s cn src inst got] (Hs & Hsrc & Hinst). change gen_savemarkers_min with 0 in Hs. change gen_savemarkers_max with 4 in Hs.
   unfold icc_written, size_term, size_term_with, copied_bytes, inst_bytes, icc_copied, saved_icc, copy_opt, temp_icc_with.
   cbn [x_save x_copynone x_src x_inst x_got] in *.
   assert (B1 : (0 <? src) = negb (src =? 0)).
